@@ -215,6 +215,19 @@ pub struct Monitors {
 }
 
 thread_local! {
+    /// when set, the interpreter samples shuttle::current::clock() after every operation ("C" events)
+    pub static SAMPLE_CLOCKS: std::cell::Cell<bool> = const { std::cell::Cell::new(false) };
+}
+
+fn sample_clock(label: &str) {
+    if SAMPLE_CLOCKS.with(|s| s.get()) {
+        let c = shuttle::current::clock();
+        let v: Vec<String> = c.iter().map(|x| x.to_string()).collect();
+        log("C", label, v.join(","));
+    }
+}
+
+thread_local! {
     static LAST_MONITORS: std::cell::RefCell<Monitors> = std::cell::RefCell::new(Monitors::default());
 }
 
@@ -934,6 +947,7 @@ fn exec_op(l: &mut Local, label: &str, uv: u64, op: &Op) {
         }
     };
     log("E", label, res);
+    sample_clock(label);
 }
 
 // ---------------------------------------------------------------------------------------------
